@@ -1,6 +1,7 @@
 package props
 
 import (
+	"verif/checker/internal/engb"
 	"fmt"
 
 	"verif/checker/internal/absint"
@@ -87,7 +88,8 @@ func C16(c *core.Ctx) {
 		"replacing placeholders by atom names: --only-models on/off => identical type and constant declarations, and with it on no function, method or variable and no validation-support import; " +
 		"--tags json vs the default list => identical types up to tag text, identical methods, constants and imports; --extra-imports off => no YAML method or import, identical types, variables and JSON methods; " +
 		"--struct-name-from-title and --capitalization (on families with concrete names, so that the real identifier synthesiser runs) => identical up to a positional renaming of declared identifiers. " +
-		"Not decided: flag wiring in main.go; --schema-root-type."
+		"B-FLAG: every option flag's variable is the one the Config field implementing that option is loaded from (flag name -> field table frozen in the rule; main.go is executed by no test). " +
+		"Not decided: --schema-root-type."
 	d := gen.DefaultConfig()
 	only := d
 	only.OnlyModels = true
@@ -131,6 +133,7 @@ func C16(c *core.Ctx) {
 		})
 	}
 	c.Floor("pairs", c.Counts["pairs"], 800, "option pairs related")
+	emit(c, engb.New(c.Prog).FlagWiring("main.main", "main.init$1", "generator.Config"))
 }
 
 // concreteNameMembers: families whose names are concrete so that the real caser runs.
